@@ -154,6 +154,94 @@ theorem jsStmts_values (fo : FullOpts) (D : Doc) (docFile count : Nat) :
     simp only [jsStmts] at hs
     exact (jsStmts_values fo D docFile count rest r i h s hs).mono (fun x hx => by simp [hx])
 
+/-! ## the declaration file (`.graphql.ts` with `print_values`): every constant with a value carries a runtime document -/
+
+/-- a statement of the declaration file is a type alias, the default export, a constant without a value, or a constant
+    whose value is the text of the runtime document of a definition of `L` -/
+def TsStmtOk (D : Doc) (L : Doc) (s : RStmt) : Prop :=
+  (∃ n e ty, s = .typeAlias n e ty) ∨ (∃ l, s = .exportDefault l) ∨ (∃ n i e a ty, s = .const n i e a ty none) ∨
+  ∃ n i e a ty x ds, s = .const n i e a ty (some (jsonText (toJson ds))) ∧ x ∈ L ∧ runtimeDefs D x = .ok ds
+
+theorem TsStmtOk.mono {D L L' : Doc} {s : RStmt} (h : TsStmtOk D L s) (hl : ∀ x, x ∈ L → x ∈ L') : TsStmtOk D L' s := by
+  rcases h with h | h | h | ⟨n, i, e, a, ty, x, ds, h1, h2, h3⟩
+  · exact Or.inl h
+  · exact Or.inr (Or.inl h)
+  · exact Or.inr (Or.inr (Or.inl h))
+  · exact Or.inr (Or.inr (Or.inr ⟨n, i, e, a, ty, x, ds, h1, hl x h2, h3⟩))
+
+/-- the value of a constant of the declaration file, when the printer returned -/
+theorem optValue_cases {pv : Bool} {D : Doc} {x : ExecDef} {js : Option String} (h : optRuntime pv D x = .ok js) :
+    optValue pv D x = none ∨ ∃ ds, runtimeDefs D x = .ok ds ∧ optValue pv D x = some (jsonText (toJson ds)) := by
+  cases pv
+  · left; simp [optValue]
+  · right
+    simp only [optRuntime, if_true] at h
+    cases hrd : runtimeDefs D x with
+    | error e => simp [runtimeText, hrd, Except.map] at h
+    | ok ds => exact ⟨ds, rfl, by simp [optValue, runtimeModelText_ok hrd]⟩
+
+theorem typeStmts_values (fo : FullOpts) (S : Schema) (D : Doc) (docFile count : Nat) :
+    ∀ (L : Doc) (sps : List Pos) (r : List POp) (i : Nat), opTypeDefsOps fo S D docFile count L sps = .ok r →
+      ∀ s ∈ typeStmts fo S D docFile count i L, TsStmtOk D L s
+  | [], _, _, _, _, s, hs => by simp [typeStmts] at hs
+  | .op op :: rest, sps, r, i, h, s, hs => by
+    simp only [opTypeDefsOps] at h
+    split at h
+    · cases h
+    · rename_i a ha
+      split at h
+      · cases h
+      · rename_i r' hr'
+        simp only [typeStmts, List.mem_append] at hs
+        rcases hs with hs | hs
+        · simp only [opStmts, List.mem_append, List.mem_cons, List.not_mem_nil, or_false] at hs
+          rcases hs with (hs | hs | hs) | hs
+          · exact Or.inl ⟨_, _, _, hs⟩
+          · exact Or.inl ⟨_, _, _, hs⟩
+          · unfold opTypeOperationOps at ha
+            split at ha
+            · cases ha
+            · split at ha
+              · cases ha
+              · rename_i js hjs
+                rcases optValue_cases hjs with hv | ⟨ds, hrd, hv⟩
+                · rw [hv] at hs; exact Or.inr (Or.inr (Or.inl ⟨_, _, _, _, _, hs⟩))
+                · rw [hv] at hs
+                  exact Or.inr (Or.inr (Or.inr ⟨_, _, _, _, _, .op op, ds, hs, by simp, hrd⟩))
+          · split at hs
+            · simp only [List.mem_cons, List.not_mem_nil, or_false] at hs; exact Or.inr (Or.inl ⟨_, hs⟩)
+            · cases hs
+        · exact (typeStmts_values fo S D docFile count rest sps.tail r' (i + 1) hr' s hs).mono
+            (fun x hx => by simp [hx])
+  | .frag f :: rest, sps, r, i, h, s, hs => by
+    simp only [opTypeDefsOps] at h
+    split at h
+    · cases h
+    · rename_i a ha
+      split at h
+      · cases h
+      · rename_i r' hr'
+        simp only [typeStmts, List.mem_append] at hs
+        rcases hs with hs | hs
+        · simp only [fragStmts, List.mem_cons, List.not_mem_nil, or_false] at hs
+          rcases hs with hs | hs
+          · exact Or.inl ⟨_, _, _, hs⟩
+          · unfold opTypeFragmentOps at ha
+            split at ha
+            · cases ha
+            · split at ha
+              · cases ha
+              · rename_i js hjs
+                rcases optValue_cases hjs with hv | ⟨ds, hrd, hv⟩
+                · rw [hv] at hs; exact Or.inr (Or.inr (Or.inl ⟨_, _, _, _, _, hs⟩))
+                · rw [hv] at hs
+                  exact Or.inr (Or.inr (Or.inr ⟨_, _, _, _, _, .frag f, ds, hs, by simp, hrd⟩))
+        · exact (typeStmts_values fo S D docFile count rest sps r' (i + 1) hr' s hs).mono (fun x hx => by simp [hx])
+  | .imp _ :: rest, sps, r, i, h, s, hs => by
+    simp only [opTypeDefsOps] at h
+    simp only [typeStmts] at hs
+    exact (typeStmts_values fo S D docFile count rest sps r i h s hs).mono (fun x hx => by simp [hx])
+
 /-! ## member lookup: first and last occurrence agree when names are distinct -/
 
 /-- the LAST value stored under `k` (what `JSON.parse` and an object literal keep when a name is repeated) -/
